@@ -104,6 +104,22 @@ def run(chk):
             continue
         for p in validate_font.validate(data, expect_names=None, ctx=f"{fmt} names {k}: "):
             chk.violation(p, dict(replay, svgs=[s.svg_text for s in srcs][:4]))
+    # identical gradients in several documents (ids are per document: a reference must resolve inside its own document)
+    for k in range(8 if quick else 150):
+        r = common.rng("C07", "sharedgrad", k)
+        glyphs = S.shared_gradient_docs_scenario(r)
+        fmt = "picosvg" if k % 2 else "picosvgz"
+        replay = {"format": fmt, "family": "shared gradients", "scenario_seed": [chk.seed, k]}
+        chk.case(key=("sharedgrad", k), nontrivial=True)
+        chk.traces_validated += 1
+        total += 1
+        try:
+            data, cfgkw, srcs = build_bytes(fmt, glyphs, k % 2 == 0, r)
+        except Exception as e:
+            chk.violation(f"{fmt}: valid sources fail to build: {type(e).__name__}: {str(e)[:160]}", replay)
+            continue
+        for p in validate_font.validate(data, expect_names=None, ctx=f"{fmt} shared gradients {k}: "):
+            chk.violation(p, dict(replay, svgs=[s.svg_text for s in srcs][:4]))
     # colour glyph ids with gaps: a coloured .notdef (gid 0) skips over .space (gid 1); bitmap strikes must be split into
     # runs and still carry every glyph
     for k, fmt in enumerate(["cbdt", "sbix", "glyf_colr_1", "picosvg", "cbdt"] if quick else FORMATS):
